@@ -109,21 +109,25 @@ def derived_inherits(ctx, rule, field, enum_suffix, what):
     ctx.floor(rule, 'derived component records carrying a %s' % what, n, 3)
 
 
-def expand_same_file(ctx, crate, c, home, stop=(), depth=0):
+def expand_same_file(ctx, crate, c, home, stop=(), seen=None):
     """A private helper that lives in the same file as the function under analysis is a piece of that function that was given a name:
-    what counts is what it calls. Accessors / predicates defined elsewhere keep their own name."""
+    what counts is what it calls, however many helpers deep. Accessors / predicates defined elsewhere keep their own name."""
     from ..facts import callee as _callee, strip_generics as _sg
-    if not c.startswith(crate + '::') or depth > 2 or c in stop:
+    seen = seen if seen is not None else set()
+    if c in seen:
+        return set()
+    if not c.startswith(crate + '::') or c in stop:
         return {c}
     hb = ctx.fb.bodies_of_item(crate, c)
     if not hb or hb[0].file != home:
         return {c}
+    seen.add(c)
     out = set()
     for x in hb:
         for _, t in x.calls():
             cc = _sg(_callee(t) or '')
             if cc and cc != c:
-                out |= expand_same_file(ctx, crate, cc, home, stop, depth + 1)
+                out |= expand_same_file(ctx, crate, cc, home, stop, seen)
     return out
 
 
